@@ -24,7 +24,7 @@ RULE = (
     "pair; distinct = (operation, parameters, input hash, seed); non-trivial = the operation returned in both runs"
 )
 ASSUMPTIONS = ["thorough tier repeats the CLI steps as real subprocesses under two PYTHONHASHSEED values", "line-granular injection uses sys.monitoring LINE events on code objects whose file lies under the tree under test"]
-REQUIRED = {"pairs_compared": {"quick": 400, "thorough": 8000}, "global_state_checks": {"quick": 400, "thorough": 8000}, "injected_global_draws": {"quick": 2000, "thorough": 50000}, "training_pairs": {"quick": 16, "thorough": 300}, "training_pairs_same_model": {"quick": 16, "thorough": 300}, "training_with_non_default_switches": {"quick": 6, "thorough": 100}, "vi_training_pairs": {"quick": 40, "thorough": 600}, "reused_scorer_pairs": {"quick": 30, "thorough": 600}, "dbal_pairs_many_samples": {"quick": 12, "thorough": 48}, "second_runs_on_an_object_with_a_past": {"quick": 60, "thorough": 1200}, "grid_model_training_pairs": {"quick": 2, "thorough": 16}, "cli_pairs": {"quick": 24, "thorough": 400}, "cli_subprocess_pairs": {"quick": 2, "thorough": 16}}
+REQUIRED = {"dbal_kernel_pairs_on_the_callers_arrays": {"quick": 100, "thorough": 1000}, "pairs_compared": {"quick": 400, "thorough": 8000}, "global_state_checks": {"quick": 400, "thorough": 8000}, "injected_global_draws": {"quick": 2000, "thorough": 50000}, "training_pairs": {"quick": 16, "thorough": 300}, "training_pairs_same_model": {"quick": 16, "thorough": 300}, "training_with_non_default_switches": {"quick": 6, "thorough": 100}, "vi_training_pairs": {"quick": 40, "thorough": 600}, "reused_scorer_pairs": {"quick": 30, "thorough": 600}, "dbal_pairs_many_samples": {"quick": 12, "thorough": 48}, "second_runs_on_an_object_with_a_past": {"quick": 60, "thorough": 1200}, "grid_model_training_pairs": {"quick": 2, "thorough": 16}, "cli_pairs": {"quick": 24, "thorough": 400}, "cli_subprocess_pairs": {"quick": 2, "thorough": 16}}
 N_OPS = {"quick": 640, "thorough": 12800}
 TOOL = 4
 
@@ -274,6 +274,37 @@ def run_shard(rec, tier, seed, shard, nshards):
         s0 = int(rng.integers(0, 2**31))
         bud = int(rng.choice([50, 300, 1000]))
         pair(rec, "DBAL-subsampling-many-samples", "n_thetas=%d budget=%d" % (n_big, bud), lambda: G.dbal_fast_gauss_scoring_vectorized(preds, var, dd, np.random.default_rng(s0), max_combos=bud), lambda r: [float(x).hex() for x in np.asarray(r).ravel()], {"n_thetas": n_big, "budget": bud, "seed": s0}, inj_every=3, case_key=("dbal-big", n_big, bud, s0), count_as="dbal_pairs_many_samples")
+
+    # ------------------------------------------------ the three documented DBAL entry points called directly, the
+    #                                                  caller keeps its arrays (plates of unequal sizes, NaN padding)
+    #                                                  and calls again: identical inputs means the SAME arrays
+    for ki in range(6 if tier == "quick" else 60):
+        T_ = int(rng.integers(3, 9))
+        sizes_ = [int(x) for x in rng.integers(1, 7, size=int(rng.integers(2, 6)))]
+        if len(set(sizes_)) == 1:
+            sizes_[0] += 1
+        E_ = max(sizes_)
+        preds_l = [rng.normal(size=(T_, e)) for e in sizes_]
+        var_l = [np.exp(rng.normal(size=(T_, e))) for e in sizes_]
+        homo = np.exp(rng.normal(size=(len(sizes_), T_)))
+        preds = np.zeros((len(sizes_), T_, E_))
+        var = np.full((len(sizes_), T_, E_), np.nan)
+        for i_, e in enumerate(sizes_):
+            preds[i_, :, :e] = preds_l[i_]
+            var[i_, :, :e] = var_l[i_]
+        dd = np.abs(rng.normal(size=(T_, T_)))
+        dd = dd + dd.T
+        np.fill_diagonal(dd, 0.0)
+        s0 = int(rng.integers(0, 2**31))
+        held = [preds, var, dd, homo] + preds_l + var_l
+        before = [kit.raw_bytes(x) for x in held]
+        fpk = lambda r: [float(x).hex() for x in np.asarray(r).ravel()]
+        wk = {"sizes": sizes_, "n_thetas": T_, "seed": s0}
+        pair(rec, "DBAL-kernel", "vectorized, NaN-padded variances", lambda: G.dbal_fast_gauss_scoring_vectorized(preds, var, dd, np.random.default_rng(s0), max_combos=5000), fpk, wk, case_key=("dbal-kernel-v", s0, tuple(sizes_)), count_as="dbal_kernel_pairs_on_the_callers_arrays")
+        pair(rec, "DBAL-kernel", "heteroscedastic", lambda: G.dbal_fast_gaussian_scoring_heteroscedastic(preds_l, var_l, dd, np.random.default_rng(s0), max_combos=5000), fpk, wk, case_key=("dbal-kernel-het", s0, tuple(sizes_)), count_as="dbal_kernel_pairs_on_the_callers_arrays")
+        pair(rec, "DBAL-kernel", "homoscedastic", lambda: G.dbal_fast_gaussian_scoring_homoscedastic(preds_l, homo, dd, np.random.default_rng(s0), max_combos=5000), fpk, wk, case_key=("dbal-kernel-hom", s0, tuple(sizes_)), count_as="dbal_kernel_pairs_on_the_callers_arrays")
+        rec.count("oracle_evals")
+        rec.check(before == [kit.raw_bytes(x) for x in held], "C18/DBAL-kernel/changes-its-inputs", "a DBAL entry point wrote into the arrays it was given: the caller's next call no longer sees the inputs it passed before", wk)
 
     # ------------------------------------------------ model training through sampling.sample
     n_tr = {"quick": 2, "thorough": 20}[tier]
